@@ -6,12 +6,19 @@
 //! `WasmRuntime` (so the bytes the host read out of the memory are observed exactly) and arbitrary
 //! (ptr,len) values around the memory size / u32 boundaries.  The memory is filled with a pattern and
 //! dumped through the `dump` export after every call.
+//! Layer B (c47_engine_probe.rs, `CBufTx` / `CBufPtr` cases): the REAL ScryptoRuntime buffer table
+//! inside real transactions (prebuilt test blueprint system_wasm_buffers on a LedgerSimulator):
+//! buffer_consume with every small id, ids never handed out, u32 boundary ids (exactly one id — the
+//! one just allocated — succeeds; already consumed ids and unknown ids fail with BufferNotFound(id)),
+//! and consumption into pointers beyond the largest allowed memory (MemoryAccessError).
 //! Direct oracle (independent of the Coq model, exact u64 arithmetic): no panic; error iff some
 //! range leaves the memory; Ok => the runtime received exactly memory[ptr..ptr+len) for every pair;
 //! a write lands exactly at [ptr, ptr+len) and every other byte of the memory is unchanged.
 #![allow(unused_variables)]
 #[path = "../c47_scan.rs"]
 mod c47_scan;
+#[path = "../c47_engine_probe.rs"]
+mod engine_probe;
 use c47_scan::*;
 use radix_common::crypto::Hash;
 use radix_engine::errors::InvokeError;
@@ -795,6 +802,76 @@ fn main() {
         if i < 3 {
             report.sample(json!({"case": case_term.chars().take(300).collect::<String>()}));
         }
+    }
+    // ---- layer B: the real ScryptoRuntime buffer table inside transactions ----
+    {
+        use engine_probe::{Outcome, Probe};
+        let max_pages = radix_common::constants::MAX_MEMORY_SIZE_IN_PAGES as u64;
+        let rounds = if args.tier == "thorough" { 4 } else { 1 };
+        let obs_of = |o: &Outcome| match o {
+            Outcome::Ok => "ObsOk []".to_string(),
+            Outcome::NotFound(id) => format!("ObsErr (BufferNotFound {})", id),
+            Outcome::TooManyBuffers => "ObsErr TooManyBuffers".to_string(),
+            Outcome::MemoryAccessError => "ObsErr MemoryAccessError".to_string(),
+            Outcome::Other(_) => "ObsOther".to_string(),
+        };
+        let mut idx = args.cases;
+        for round in 0..rounds {
+            let mut rng = root.fork(1_000_000 + round as u64);
+            let mut p = Probe::new();
+            // the KV entry value: the buffer kv_entry_read allocates holds it (sizes around the
+            // SBOR length-prefix boundaries and a large one)
+            let vlen = *rng.pick(&[0usize, 1, 127, 128, 1000, 16383, 16384, 70_000]);
+            let st = p.store_value(vlen);
+            if st != Outcome::Ok {
+                report.oracle_failure(idx, "", &format!("engine probe: storing a {}-byte value failed: {:?}", vlen, st), json!({"vlen": vlen}));
+                continue;
+            }
+            // ids: every small id, ids never handed out, u32 boundaries
+            let mut ids: Vec<u32> = (0..=12).collect();
+            ids.extend([31, 32, 33, 255, 65536, 0x7fff_ffff, 0x8000_0000, u32::MAX - 1, u32::MAX]);
+            for _ in 0..3 {
+                ids.push(rng.next_u32());
+            }
+            let outs: Vec<(u32, Outcome)> = ids.iter().map(|id| (*id, p.consume_id(*id))).collect();
+            let oks: Vec<u32> = outs.iter().filter(|(_, o)| *o == Outcome::Ok).map(|(id, _)| *id).collect();
+            let input = json!({"vlen": vlen, "outcomes": outs.iter().map(|(id, o)| format!("{} -> {:?}", id, o)).collect::<Vec<_>>()});
+            // oracle: exactly one id is live (the buffer just allocated); every other id — consumed
+            // earlier in the frame or never handed out — fails with BufferNotFound carrying that id
+            if oks.len() != 1 {
+                report.oracle_failure(idx, "", &format!("engine probe: {} ids were accepted by buffer_consume after one allocation: {:?}", oks.len(), oks), input.clone());
+                continue;
+            }
+            let prior = oks[0];
+            for (id, o) in &outs {
+                let want = if *id == prior { Outcome::Ok } else { Outcome::NotFound(*id) };
+                if *o != want {
+                    report.oracle_failure(idx, "", &format!("engine probe: buffer_consume({}) with live id {} gave {:?}", id, prior, o), input.clone());
+                }
+                report.count(if *id == prior { "engine_consume_live_id" } else if *id < prior { "engine_consume_already_consumed_id" } else { "engine_consume_unknown_id" });
+                cw.push(format!("(CBufTx {} 4 {} ({}), (0, 0, []))", prior, id, obs_of(o)));
+                report.case(&format!("buftx|{}|{}|{}", vlen, prior, id), *id != prior);
+                idx += 1;
+            }
+            // pointers beyond the largest memory the validator allows: MemoryAccessError, no panic
+            let m = max_pages * PAGE;
+            let mut dests: Vec<u64> = vec![m, m + 1, 1 << 31, u32::MAX as u64 - 1, u32::MAX as u64];
+            dests.push(m + rng.below((1u64 << 32) - m));
+            for d in dests {
+                let o = p.consume_to(d as u32);
+                if o != Outcome::MemoryAccessError {
+                    report.oracle_failure(idx, "", &format!("engine probe: buffer_consume into pointer {} (memory <= {} bytes) gave {:?}", d, m, o), json!({"vlen": vlen, "dest": d}));
+                }
+                report.count("engine_consume_ptr_beyond_memory");
+                cw.push(format!("(CBufPtr {} 4 {} {} 1 ({}), (0, 0, []))", prior, max_pages, d, obs_of(&o)));
+                report.case(&format!("bufptr|{}|{}", vlen, d), true);
+                idx += 1;
+            }
+            report.extra.insert(format!("engine_probe_round_{}", round), json!({"value_len": vlen, "live_id": prior, "transactions": p.runs}));
+        }
+        report.floor("engine_consume_live_id", 1);
+        report.floor("engine_consume_unknown_id", 10);
+        report.floor("engine_consume_ptr_beyond_memory", 5);
     }
     let n = args.cases as u64;
     report.floor("read_ok", n / 20);
